@@ -2,6 +2,7 @@
 // @also C06
 // @engine B
 // @entry vfh_C13_defaults
+// @shared_state_watch
 // @tier Q
 // @reach defaults.constructed
 // @funcs IPhreeqc::IPhreeqc; IPhreeqc::UnLoadDatabase; IPhreeqc::create_file_name; IPhreeqc::sel_file_name
